@@ -470,10 +470,15 @@ def ss(draw, db, profile):
     return {"sss": out}
 
 
-def render_ss(d, n):
+def render_ss(d, n, suffix=""):
+    """suffix: appended to every solid-solution name.  plan() passes "c<cell>" so that two SOLID_SOLUTIONS blocks defined
+    in different steps of one history never share a name.  Known finding on the pinned tree (C02): the engine decides
+    whether the equations of the previous calculation can be re-used by comparing solid solutions *by name only*
+    (prep.cpp check_same_model); a second solid solution "SS0" with other components is then solved with the phases of
+    the first one (0.1 mol Sylvite came back as 0.1 mol Strontianite)."""
     L = ["SOLID_SOLUTIONS %d" % n]
     for s in d["sss"]:
-        L.append(" %s" % s["name"])
+        L.append(" %s%s" % (s["name"], suffix))
         for c, a in s["comps"]:
             L.append("  -comp %s %s" % (c, fmt(a)))
         if s["nonideal"]:
@@ -722,7 +727,8 @@ def plan(case, punch=None):
                         sp["equil"] = eq_sol
                     setup.append(render_gas(sp, c, spec.get("temp", 25.0)))
                 elif kd == "ss":
-                    setup.append(render_ss(spec, c))
+                    # `ss_names: "raw"` keeps the names as written in the case (used only by the known-finding replay)
+                    setup.append(render_ss(spec, c, "" if case.get("ss_names") == "raw" else "c%d" % c))
                 elif kd == "kin":
                     setup.append(render_kin(spec, c))
             defs[kd] = spec
